@@ -245,6 +245,8 @@ MUTANTS["C14"] = [
     ("arista-continue-outside-block", "annet/rpl_generators/policy.py", "            for action in statement.then:\n                yield from self._arista_then(communities, device, action)\n            if statement.result is ResultType.NEXT:\n                yield \"continue\"", "            for action in statement.then:\n                yield from self._arista_then(communities, device, action)\n        if statement.result is ResultType.NEXT:\n            yield \"continue\""),
     ("cumulus-united-list-only-first", "annet/rpl_generators/cumulus_frr.py", "        if condition.operator is ConditionOperator.HAS_ANY:\n            return [mangle_united_community_list_name(condition.value)]", "        if condition.operator is ConditionOperator.HAS_ANY:\n            return [mangle_united_community_list_name(condition.value[:1])] if len(condition.value) > 2 else [mangle_united_community_list_name(condition.value)]"),
     ("rd-filter-by-name", "annet/rpl_generators/policy.py", '            yield "if-match rd-filter", str(rd_filter.number)', '            yield "if-match rd-filter", str(rd_filter.name)'),
+    ("block-header-not-annotated", "annet/generators/base.py", "        self._append_text(block)\n", "        self._append_text_cb(block)\n"),
+    ("generator-object-keeps-rows-of-an-aborted-run", "annet/generators/partial.py", "    def __call__(self, device, annotate=False):\n        self._indents = []\n        self._rows = []\n", "    def __call__(self, device, annotate=False):\n        if not getattr(self, '_vf_dirty', False):\n            self._indents = []\n            self._rows = []\n        self._vf_dirty = True\n"),
 ]
 
 MUTANTS["C15"] = [
